@@ -138,6 +138,25 @@ func dropMembers(r *rand.Rand, v interface{}) interface{} {
 	return v
 }
 
+// expandedSpecJSON is the observation the property names for the parsed specification: the FULLY EXPANDED document. The
+// library expands non-recursive references in place in some positions (e.g. below a definition that carries a default):
+// two parsed specifications are the same when their full expansions are.
+func expandedSpecJSON(sw *spec.Swagger) []byte {
+	b, err := json.Marshal(sw)
+	if err != nil {
+		return []byte("marshal error: " + err.Error())
+	}
+	var c spec.Swagger
+	if err := json.Unmarshal(b, &c); err != nil {
+		return b
+	}
+	if err := spec.ExpandSpec(&c, &spec.ExpandOptions{}); err != nil {
+		return b
+	}
+	out, _ := json.Marshal(&c)
+	return out
+}
+
 func driveFrame(args []string) error {
 	fs := flag.NewFlagSet("drive-frame", flag.ExitOnError)
 	seed := fs.Int64("seed", 1, "seed")
@@ -254,7 +273,7 @@ func driveFrame(args []string) error {
 				continue
 			}
 			preRaw := append([]byte{}, doc.Raw()...)
-			preSpec, _ := json.Marshal(doc.Spec())
+			preSpec := expandedSpecJSON(doc.Spec())
 			accepted := false
 			protect(func() string {
 				sv := validate.NewSpecValidator(doc.Schema(), reg)
@@ -264,7 +283,7 @@ func driveFrame(args []string) error {
 				return ""
 			})
 			postRaw := doc.Raw()
-			postSpec, _ := json.Marshal(doc.Spec())
+			postSpec := expandedSpecJSON(doc.Spec())
 			in := enc.M{"doc": json.RawMessage(d), "continueOnErrors": cont}
 			if err := emit("docRaw", "SpecValidator.Validate", preRaw, postRaw, len(d) < 6000, in); err != nil {
 				return err
